@@ -78,7 +78,7 @@ def check_screen(lines, cols, rows, h, w):
     while lines and lines[-1].strip() == '':
         lines.pop()
     if not rows:
-        return None if [l.strip() for l in lines] == ['No data'] else 'empty result does not print "No data": %r' % lines[:3]
+        return None if [l.strip() for l in lines] == ['No data'[:w].strip()] else 'empty result does not print "No data" (cut to the width): %r' % lines[:3]
     if len(lines) > h - 1:
         return 'more than height-1 lines on the terminal (%d > %d)' % (len(lines), h - 1)
     for l in lines:
